@@ -28,8 +28,8 @@ from detsim.sched import HarnessError, Scheduler
 
 PROP = "C11"
 LEVEL = "exploration"
-RUNS = {"quick": 2000, "thorough": 60000}
-BUDGET_S = {"quick": 75, "thorough": 1200}
+RUNS = {"quick": 10000, "thorough": 150000}
+BUDGET_S = {"quick": 90, "thorough": 1500}
 RULE = ("each evaluation is one hinted query of a session (a) or one parse of a record-order-"
         "faulted file with all its stored timestamps re-queried (b, c). Distinct = distinct "
         "(tempo ticks, tick, resolved hint) resp. distinct faulted text digest; non-trivial = the "
